@@ -5,9 +5,16 @@ T_TB = "tools/cpp2lean.py: clang-14 JSON AST -> Lean translation of the listed f
 C_TB = "correspondence harness (sampling): a divergence on inputs never generated is not seen"
 
 EXTRA_GENERATORS = []
+HOOK_COMMITS = []
+NOT_CLAIMED = {}
+
 
 PROPS = {
     "C18": dict(
+        claimed=True,
+        level_text="Exactness of Multiply/ProductsAreEqual/CrossProductSign/IsCollinear on both code paths is a Lean theorem about definitions regenerated from the source on every run; PointInPolygon/Area/GetSegmentIntersectPt by hand models tied by bit-exact correspondence",
+        level_note="Lean kernel; cpp2lean translator; correspondence harness; std::abs(INT64_MIN) precondition on the portable branch; IEEE exactness below 2^53",
+        technique="Lean 4 theorems over source-regenerated definitions + differential correspondence",
         level="proof",
         harnesses=[dict(src="C18.cpp", portable=True)],
         trusted_base=[LEAN_TB, T_TB, C_TB,
@@ -31,5 +38,18 @@ PROPS = {
         trusted_base=[LEAN_TB, T_TB, C_TB],
         rule="general-position inputs up to 2^40 (premise verified exactly in Lean); exact equality of canonicalised solutions under permutation / start rotation / duplicate+closing vertices / subject-clip swap / global reversal; region equality (exact winding numbers outside the band) for Xor=Union-Intersection, Difference+Intersection=subject, translation, transposition, mirroring, integer scaling",
         explanation="",
+    ),
+    "C02": dict(
+        claimed=True,
+        level_text="Every real engine output on rectilinear input is judged by an executable checker whose soundness for all points of the plane (rectCheck_sound), cell-constancy of winding numbers and the discrete Green theorem are Lean theorems; the all-inputs quantifier is covered by exhaustive enumeration of the 4x4 rectangle-pair scope and sampling beyond it (partial)",
+        level_note="Lean kernel; Spec.wind as the definition of winding number; the sweep engine itself is not modelled here (see C01 for its bookkeeping model); sampling for inputs beyond the enumerated scope",
+        technique="verified checker in Lean 4 (proved sound for all points) applied to real outputs; exhaustive small scope",
+        level="proof",
+        harnesses=[dict(src="C02.cpp")],
+        trusted_base=[LEAN_TB, C_TB,
+                      "Spec.wind (half-open ray rule) is the definition of winding number; the checker's verdict is lifted to all rational points of the plane by rectCheck_sound",
+                      "the engine itself is not modelled in this slice: exactness for all inputs rests on enumeration (rectangle pairs) and sampling (random walks)"],
+        rule="every Clipper64::Execute on rectilinear input is one record; distinct by request line; small scope = ordered pairs of the 100 lattice rectangles on {0..4}^2 x 4 clip types x 4 fill rules x scales {1,7,2^30} (thorough: all 10000 pairs x PreserveCollinear on/off, quick: seeded 1/8 of the pairs); random closed rectilinear walks 4-16 vertices on a 6x6 lattice with collinear vertices, spikes, overlapping edges, 1-3 paths per side, scales {1,7,2^30,2^58}; long walks 17-40 vertices on a 12x12 lattice; sets of up to 5 lattice rectangles with coincident copies",
+        explanation="Theorems: winding numbers of rectilinear closed paths are constant on grid cells (windR_cell_const); a true verdict of the executable checker implies rectilinearity, coordinate provenance and wind sol p = [p in R] for every rational point p (rectCheck_sound); discrete Green theorem: shoelace area = sum over cells of winding number x area (shoelace_cells), so the area clause follows from the cell clause (area_of_cells). Correspondence: the proved checker judges every real engine output.",
     ),
 }
